@@ -562,7 +562,7 @@ class ExecS(ExecB):
         return [(s_ret, mirsmt.fresh_of_type(dest_ty, st.sym, "h"), "return", "")]
 
 
-STATE_TWINS = {"insert_row": 0, "push_row": 0, "insert_col": 1, "push_col": 1, "remove_row": 2, "remove_col": 3}
+STATE_TWINS = {"insert_row": 0, "push_row": 0, "insert_col": 1, "push_col": 1, "remove_row": 2, "remove_col": 3, "clone_from": 4}
 
 
 def run_state_kernels(fns, wrapping, fields, want):
@@ -586,6 +586,9 @@ def run_state_kernels(fns, wrapping, fields, want):
                 args.append(Int(ctx.int("arg" + l)))
             elif ty == "(usize, usize)":
                 args.append(Tup([Int(ctx.int("arg" + l + "a")), Int(ctx.int("arg" + l + "b"))]))
+            elif re.match(r"^&toodee::TooDee<T>$", ty):
+                # another array of the same type (any valid state)
+                args.append(kernels.owned(ctx, "src" + l + "_", "src" + l)[0])
             else:
                 args.append(Opaque(ty))
         try:
@@ -607,9 +610,11 @@ def run_state_kernels(fns, wrapping, fields, want):
             if cls == "cut" or cls not in want:
                 continue
             tup = o.state.roots["self"].cell.v
-            C = tup.fs[order.index("num_cols")].t
-            R = tup.fs[order.index("num_rows")].t
-            L = tup.fs[order.index("data")].len
+            fc, fr, fd = (tup.fs[order.index(k)] for k in ("num_cols", "num_rows", "data"))
+            if not (isinstance(fc, Int) and isinstance(fr, Int) and isinstance(fd, Slice)):
+                res["inconclusive"].append(f"{name}: a {cls} exit leaves a field the encoding cannot express ({type(fc).__name__}/{type(fr).__name__}/{type(fd).__name__})")
+                continue
+            C, R, L = fc.t, fr.t, fd.len
             inv = f"(and (= (* {C} {R}) {L}) (= (= {C} 0) (= {R} 0)))"
             base = ctx.assume + o.state.pc + [f"(not {inv})"]
             names_in = list(ctx.inputs.values())
@@ -619,7 +624,7 @@ def run_state_kernels(fns, wrapping, fields, want):
             if verdict in ("unsat", "unsat1"):
                 res["unsat"] += 1
             elif verdict == "sat":
-                small = [f"(<= {t} 8)" for n, t in ctx.inputs.items() if n in ("cols", "rows", "len")]
+                small = [f"(<= {t} 8)" for n, t in ctx.inputs.items() if n.split("_")[-1] in ("cols", "rows", "len")]
                 rs, outm = mirsmt.solve(mirsmt.smt_script(sym, base + small, get_model=names_in), "z3")
                 wit = parse_model(outm if rs == "sat" else model, ctx.inputs)
                 rep = None
